@@ -47,10 +47,40 @@ Proof. exact for_scoped_proof. Qed.
 
 (* a set statement binds the name in the current scope (template level included) and nothing else changes *)
 Theorem set_persists : forall c fuel esc s x e sg s', s_env s <> [] ->
-  exec c fuel esc s (SSet x e) = Ok (sg, s') ->
+  exec c fuel esc s (SSet (TVar x) e) = Ok (sg, s') ->
   exists v s1 f r, eval c (pred fuel) esc s e = Ok (v, s1) /\ s_env s' = f :: r /\ assoc x (f_locals f) = Some v
                    /\ r = tl (s_env s).
 Proof. exact set_persists_proof. Qed.
+
+(* unpacking assignment `set x, y = e`: the right-hand side is evaluated completely, in the state before
+   the statement, and only then are the targets bound - y to the second and x to the first item of its
+   value (a list unpacks into its items, a map into its keys) - in the current scope, nothing else changes.
+   So `set a, b = [b, a]` swaps. *)
+Theorem set_unpacks_after_evaluation : forall c fuel esc s x y e sg s', s_env s <> [] ->
+  exec c fuel esc s (SSet (TPair x y) e) = Ok (sg, s') ->
+  exists v s1 a b f r, eval c (pred fuel) esc s e = Ok (v, s1) /\ unpack_items v = Some [a; b] /\
+                   s_env s' = f :: r /\ assoc y (f_locals f) = Some b /\ (x <> y -> assoc x (f_locals f) = Some a)
+                   /\ r = tl (s_env s).
+Proof. exact set_pair_persists_proof. Qed.
+
+(* maps (the default build's ValueMap = BTreeMap): a literal / context map is built by inserting its pairs
+   in source order; a key just inserted is found with the inserted value (of duplicate keys the last
+   wins); the entries are in strictly ascending key order whatever the insertion order (what iteration,
+   printing, |list and |items follow); `in` is a key lookup, truthiness is non-emptiness, unpacking and
+   |list yield the keys, |length the number of entries *)
+Theorem map_insert_then_get : forall k v m, map_get k (map_insert k v m) = Some v.
+Proof. exact map_get_insert_proof. Qed.
+
+Theorem map_entries_ascending : forall ps, keys_ascending (map_of_pairs ps).
+Proof. exact map_of_pairs_ascending_proof. Qed.
+
+Theorem map_operations : forall kvs item,
+  contains (VMap kvs) item = Ok (match map_get item kvs with Some _ => true | None => false end) /\
+  truthy (VMap kvs) = negb (Nat.eqb (length kvs) 0) /\
+  unpack_items (VMap kvs) = Some (map fst kvs) /\
+  (forall m, do_filter m false F_length (VMap kvs) [] = Ok (VInt (lenZ kvs))) /\
+  (forall m, do_filter m false F_list (VMap kvs) [] = Ok (VList (map fst kvs))).
+Proof. exact map_semantics_proof. Qed.
 
 (* an if-branch runs in the scope of the if itself: its assignments persist *)
 Theorem if_branch_runs_in_place : forall c fuel esc s cnd body els v s1,
@@ -62,11 +92,11 @@ Proof. exact if_in_place_proof. Qed.
    produces the documented output; the scoping theorems apply to each of its statements *)
 Example scoping_witness :
   let x := 100 in let y := 101 in let mname := 102 in
-  let prog := [SSet x (EConst (LInt 1));
+  let prog := [SSet (TVar x) (EConst (LInt 1));
                SFor (TVar y) (EList [EConst (LInt 7); EConst (LInt 8)]) None
-                    [SSet x (EVar y); SEmit (EVar x); SEmit (EAttr (EVar N_loop) A_index)] None false;
-               SWith [(x, EConst (LInt 5))] [SEmit (EVar x)];
-               SMacro mname [] [] [SSet x (EConst (LInt 9)); SEmit (EVar x)];
+                    [SSet (TVar x) (EVar y); SEmit (EVar x); SEmit (EAttr (EVar N_loop) A_index)] None false;
+               SWith [(TVar x, EConst (LInt 5))] [SEmit (EVar x)];
+               SMacro mname [] [] [SSet (TVar x) (EConst (LInt 9)); SEmit (EVar x)];
                SEmit (ECall mname [] []);
                SEmit (EVar x)] in
   match Interp.run (mkCfg Lenient [] false) 50 prog with
@@ -114,7 +144,7 @@ Proof.
   intros inl l Hl Hp. exact (L inl l Hl Hp).
 Qed.
 
-(* Expressions - every constructor: constants (folded), variables, lists, unary minus, not, + - * // % ~,
+(* Expressions - every constructor: constants (folded), variables, lists, map literals (BuildMap), unary minus, not, + - * // % ~,
    single and chained comparisons (in / not in), and, or, if-expressions, subscripts, attributes,
    filters, tests, and CALLS of macros and functions with positional and keyword arguments (static
    keyword maps and BuildKwargs), defaults, caller.  In every undefined mode, context, state satisfying
@@ -134,7 +164,7 @@ Proof.
   destruct (sim_levels c C Hc Hw fuel) as (E & _). apply starO_inv. exact (E esc e Hl s v s' He Hi base stk escs caps its calls Hcode).
 Qed.
 
-(* Statements - every constructor: raw text, emit, if / elif / else, set, set-block (with filter), with,
+(* Statements - every constructor: raw text, emit, if / elif / else, set and with (single or unpacking targets), set-block (with filter),
    filter block, autoescape, for loops (any target incl. unpacking, filter = the accumulate loop, else,
    the loop variable and loop.* through the loop frame, recursive flag), break and continue, macro
    declarations (body behind a jump, defaults, Enclose / GetClosure / BuildMacro) and call blocks
@@ -184,7 +214,7 @@ Proof. exact compile_len_indep. Qed.
    what the parser guarantees).  What the theorem does NOT say:
      * anything about runs the interpreter does not finish (OutOfGas); runs it ends with an error are
        the subject of compile_error below;
-     * `loop(...)` recursion and everything else outside the Lang syntax (tuples, maps, slices, method
+     * `loop(...)` recursion and everything else outside the Lang syntax (tuples, slices, method
        calls, blocks, includes ...): correspondence of the check only. *)
 Theorem compile_correct : forall c fuel body s,
   forallb (fun p => data_value (snd p)) (c_root c) = true ->
@@ -263,18 +293,18 @@ Proof. vm_compute. repeat split. Qed.
 Example l2_witness :
   let x := 100 in let y := 101 in let z := 102 in let mname := 103 in let p := 104 in let m2 := 105 in
   let prog :=
-    [SSet x (EList [EConst (LInt 3); EConst (LInt 5)]);
+    [SSet (TVar x) (EList [EConst (LInt 3); EConst (LInt 5)]);
      SIf [(ECmp (EConst (LInt 1)) [(CLt, EItem (EVar x) (EConst (LInt 0))); (CLe, EConst (LInt 3))],
            [SEmit (EAnd (EVar x) (EFilter F_length (EVar x) []))]);
           (ETest T_defined (EVar y) [] true, [SRaw [33]])]
          (Some [SRaw [63]]);
-     SWith [(y, EBin OAdd (EItem (EVar x) (EConst (LInt 1))) (EConst (LInt 1)))]
+     SWith [(TVar y, EBin OAdd (EItem (EVar x) (EConst (LInt 1))) (EConst (LInt 1)))]
            [SSetBlock x [SEmit (EVar y); SRaw [97]] (Some F_upper); SEmit (EVar x)];
      SFilterBlock F_upper [SRaw [98]; SEmit (EIf (EVar y) (EConst (LInt 1)) None)];
      SAutoEscape (EConst (LBool true)) [SEmit (EConst (LStr [60]))];
      SEmit (EOr (ECmp (EConst (LInt 7)) [(CNotIn, EVar x)]) (EVar y));
      SFor (TVar z) (EList [EConst (LInt 7); EConst (LInt 8); EConst (LInt 9); EConst (LInt 10)]) None
-          [SWith [(x, EVar z)]
+          [SWith [(TVar x, EVar z)]
              [SSetBlock y [SIf [(ECmp (EVar z) [(CEq, EConst (LInt 8))], [SContinue])] None;
                            SIf [(EAttr (EVar N_loop) A_last, [SBreak])] None] None;
               SEmit (EVar x); SEmit (EAttr (EVar N_loop) A_index)]]
@@ -284,7 +314,7 @@ Example l2_witness :
           (Some (ECmp (EVar z) [(CNe, EConst (LInt 2))]))
           [SEmit (EVar z); SEmit (EAttr (EVar N_loop) A_length);
            SIf [(ECmp (EAttr (EVar N_loop) A_index) [(CEq, EConst (LInt 2))], [SBreak])] None] None true;
-     SSet x (EConst (LInt 1));
+     SSet (TVar x) (EConst (LInt 1));
      SMacro mname [p] [(p, EConst (LInt 4))] [SEmit (EVar p); SEmit (ECall N_caller [] [])];
      SCallBlock mname [] [SRaw [99]; SEmit (EVar x)];
      SMacro m2 [p; y] [(y, EBin OAdd (EVar x) (EConst (LInt 1)))] [SEmit (EVar p); SEmit (EVar y); SEmit (EVar x)];
@@ -303,6 +333,41 @@ Example l2_witness :
   existsb (fun i => match i with IBuildMacro _ _ _ => true | _ => false end) (compile_template prog) = true.
 Proof. vm_compute. repeat split. Qed.
 
+(* non-vacuity for maps and unpacking assignment: a map literal with a duplicate key and a nested list is
+   built (BuildMap), printed ({'a': [1, "'"], 'b': 2}), read by attribute and by subscript (a missing key
+   is undefined), tested with `in`, iterated (keys in key order, loop.index), iterated through |items with
+   an unpacking loop target; `set a, b = [b, a + b]` and `with (a, b) = [b, a], z = a` evaluate their
+   right-hand sides before binding (UnpackList); interpreter and VM agree on the final state *)
+Example l2_witness_maps :
+  let x := 100 in let z := 102 in let a := 106 in let b := 107 in let m := 108 in
+  let key_b := 1098 in        (* attr_str 1098 = "b" *)
+  let prog :=
+    [SSet (TVar m) (EMap [(EConst (LStr [98]), EVar x); (EConst (LStr [97]), EList [EConst (LInt 1); EConst (LStr [39])]);
+                          (EConst (LStr [98]), EConst (LInt 2))]);
+     SEmit (EVar m); SEmit (EAttr (EVar m) key_b); SEmit (EItem (EVar m) (EConst (LStr [97])));
+     SEmit (EItem (EVar m) (EConst (LStr [122]))); SEmit (ECmp (EConst (LStr [97])) [(CIn, EVar m)]);
+     SFor (TVar z) (EVar m) None [SEmit (EVar z); SEmit (EAttr (EVar N_loop) A_index)] None false;
+     SFor (TPair a b) (EFilter F_items (EVar m) []) None [SEmit (EVar a); SEmit (EVar b)] None false;
+     SSet (TVar a) (EConst (LInt 1)); SSet (TVar b) (EConst (LInt 2));
+     SSet (TPair a b) (EList [EVar b; EBin OAdd (EVar a) (EVar b)]); SEmit (EVar a); SEmit (EVar b);
+     SWith [(TPair a b, EList [EVar b; EVar a]); (TVar z, EVar a)] [SEmit (EVar a); SEmit (EVar b); SEmit (EVar z)];
+     SEmit (EVar a);
+     SEmit (EFilter F_length (EMap [(EConst (LInt 1), EConst (LInt 1)); (EConst (LInt 1), EConst (LInt 2))]) [])] in
+  let cfg := mkCfg Lenient [] false in
+  attr_str key_b = [98] /\
+  forallb (l2_stmt false) prog = true /\
+  match Interp.run cfg 60 prog, run_template cfg 800 (compile_template prog) with
+  | Ok s, Ok s' => s = s' /\ output_of s =
+      [123; 39; 97; 39; 58; 32; 91; 49; 44; 32; 34; 39; 34; 93; 44; 32; 39; 98; 39; 58; 32; 50; 125;     (* {'a': [1, "'"], 'b': 2} *)
+       50; 91; 49; 44; 32; 34; 39; 34; 93; 84; 114; 117; 101;                                           (* 2 [1, "'"] (nothing) True *)
+       97; 49; 98; 50; 97; 91; 49; 44; 32; 34; 39; 34; 93; 98; 50;                                      (* a1 b2 | a[1, "'"] b2 *)
+       50; 51; 51; 50; 51; 50; 49]                                                                      (* 23 | 323 | 2 | 1 *)
+  | _, _ => False
+  end /\
+  existsb (fun i => match i with IBuildMap _ => true | _ => false end) (compile_template prog) = true /\
+  existsb (fun i => match i with IUnpackList _ => true | _ => false end) (compile_template prog) = true.
+Proof. vm_compute. repeat split. Qed.
+
 Print Assumptions loop_fields_describe_iteration.
 Print Assumptions expressions_do_not_assign.
 Print Assumptions macro_assignments_invisible.
@@ -310,6 +375,10 @@ Print Assumptions statements_touch_only_innermost_scope.
 Print Assumptions with_assignments_invisible.
 Print Assumptions loop_assignments_invisible.
 Print Assumptions set_persists.
+Print Assumptions set_unpacks_after_evaluation.
+Print Assumptions map_insert_then_get.
+Print Assumptions map_entries_ascending.
+Print Assumptions map_operations.
 Print Assumptions if_branch_runs_in_place.
 Print Assumptions folded_constant_is_evaluation.
 Print Assumptions compiled_code_is_well_formed.
